@@ -12,7 +12,7 @@ echo "== demo WITHOUT patch"
 cargo test --offline --test demo_test 2>&1 | grep -E "^test result" | tail -1
 git apply patch.diff || { echo "patch does not apply"; exit 2; }
 echo "== existing tests WITH patch"
-cargo test --offline 2>&1 | grep -E "^test result|Running" | cut -c1-110
+cargo test --offline --no-fail-fast 2>&1 | grep -E "^test result|Running" | cut -c1-110
 echo "== demo WITH patch"
 cargo test --offline --test demo_test 2>&1 | grep -E "^test result" | tail -1
 mkdir -p /verif/seeded/$name
